@@ -113,7 +113,13 @@ def run_job(target, case, opts=None):
                     ctx.prove("post:returns", "post", equiv(val, want), info={"got": repr(val), "want": repr(want), "path": pid}, assume_after=False)
                 for ens in ctr.ensures:
                     nm, fn = ens[0], ens[1]
-                    ctx.prove(f"post:{nm}", "post", fn(A, val), info={"path": pid}, assume_after=False)
+                    try:
+                        goal = fn(A, val)
+                    except (Undecided, SymRaise, PathEnd, Retype):
+                        raise
+                    except Exception as ex:     # the result has a shape the postcondition was not written for (changed code)
+                        raise Undecided(f"postcondition `{nm}` cannot be evaluated on this result ({type(ex).__name__}: {str(ex)[:120]})")
+                    ctx.prove(f"post:{nm}", "post", goal, info={"path": pid}, assume_after=False)
                 if ctr.frame is not None:
                     ok = not ctx.mutated
                     ctx.prove("frame", "frame", ok, info={"path": pid, "written": repr(ctx.mutated[:3])}, assume_after=False)
